@@ -181,7 +181,7 @@ def mutable_ids(root, eng):
         elif isinstance(v, dict):
             seen[id(v)] = v
             stack.extend(v.values())
-        elif isinstance(v, SSet):
+        elif isinstance(v, (SSet, set)):
             seen[id(v)] = v
         elif isinstance(v, Stub):
             continue
